@@ -624,6 +624,69 @@ def async_std_backend(repo: Path):
     }
 
 
+def remote_wave2_facts(repo: Path):
+    """Wave 2 (C20/C19) source facts: statement order of `after_authenticated`, field mapping of the
+    proxy's `node::Cast`/`node::Call` literals and of `handle_node`'s `SerializedMessage` literals,
+    the arms of `handle_message`'s serialized branch. Sentinels ([] / "") when a pattern is not found."""
+    ws = lambda t: re.sub(r"\s+", "", t)
+    out = {}
+    ns = strip_comments(read(repo, "ractor_cluster/src/node/node_session.rs"))
+    body = fn_body(ns, "after_authenticated") or ""
+    out["aa_order"] = [m.group(0) for m in re.finditer(
+        r"pid_registry::monitor|get_all_pids|Msg::Spawn|pg::monitor_scope|pg::monitor\b|which_scopes_and_groups|Msg::PgJoin|Msg::Ready|set_ready|ReadyState", body)][:8]
+    ra = strip_comments(read(repo, "ractor_cluster/src/remote_actor.rs"))
+    def literal(src, head):
+        i = src.find(head)
+        if i < 0:
+            return []
+        j = src.find("{", i)
+        depth, k = 0, j
+        while k < len(src):
+            if src[k] == "{":
+                depth += 1
+            elif src[k] == "}":
+                depth -= 1
+                if depth == 0:
+                    break
+            k += 1
+        inner = src[j + 1:k]
+        # split on top-level commas
+        parts, depth, cur = [], 0, ""
+        for c in inner:
+            if c in "({[":
+                depth += 1
+            elif c in ")}]":
+                depth -= 1
+            if c == "," and depth == 0:
+                parts.append(ws(cur)); cur = ""
+            else:
+                cur += c
+        if ws(cur):
+            parts.append(ws(cur))
+        return parts
+    hs = fn_body(ra, "handle_serialized") or ""
+    out["proxy_cast"] = literal(hs, "crate::protocol::node::Cast")
+    out["proxy_call"] = literal(hs, "crate::protocol::node::Call")
+    hn = fn_body(ns, "handle_node") or ""
+    out["deliver_cast"] = literal(hn, "SerializedMessage::Cast")
+    out["deliver_call"] = literal(hn, "SerializedMessage::Call")
+    ac = strip_comments(read(repo, "ractor/src/actor.rs"))
+    hm = fn_body(ac, "handle_message") or ""
+    hm = re.sub(r"tracing::\w+!\s*\((?:[^()]|\([^()]*\))*\)\s*;", "", hm)
+    i = hm.find("catch_unwind")
+    arms = []
+    if i >= 0:
+        seg = hm[i:hm.find("else", i)]
+        for m in re.finditer(r"(Ok\(Ok\(\w+\)\)|Ok\(Err\(_\)\)|Err\(_\))\s*=>\s*(\{[^{}]*\}|[^,]*),?", seg):
+            arms.append(ws(m.group(1)) + "=>" + ws(m.group(2)))
+        m = re.search(r"else\s*\{([^{}]*)\}", hm[i:])
+        out["hm_local"] = ws(m.group(1)) if m else ""
+    else:
+        out["hm_local"] = ""
+    out["hm_arms"] = arms
+    return out
+
+
 def main():
     ap = argparse.ArgumentParser()
     ap.add_argument("--repo", default="/repo")
@@ -846,6 +909,25 @@ def main():
     w(f"def asyncStdSelectTwins : List (String × Bool) := [{', '.join(f'({lean_str(k)}, {str(v).lower()})' for k, v in ab['twins'])}]")
     w("/-- spawn functions whose future is wrapped by `verif::controlled` before the Abortable wrapper -/")
     w(f"def asyncStdVerifHooks : List String := {lean_strs(ab['hooks'])}")
+    w("")
+    # ---- wave 2: remote references / decoder failure (agent remote) --------------------------
+    try:
+        w2 = remote_wave2_facts(repo)
+    except Exception as e:
+        print(f"extract: remote_wave2_facts failed: {e}", file=sys.stderr)
+        w2 = {"aa_order": [], "proxy_cast": [], "proxy_call": [], "deliver_cast": [], "deliver_call": [],
+              "hm_arms": [], "hm_local": ""}
+    w("/-- `NodeSession::after_authenticated`: registration / scan / send calls in source order -/")
+    w(f"def afterAuthenticatedOrder : List String := {lean_strs(w2['aa_order'])}")
+    w("/-- remote_actor.rs `handle_serialized`: fields of the `node::Cast` / `node::Call` literals -/")
+    w(f"def proxyCastFields : List String := {lean_strs(w2['proxy_cast'])}")
+    w(f"def proxyCallFields : List String := {lean_strs(w2['proxy_call'])}")
+    w("/-- node_session.rs `handle_node`: fields of the first `SerializedMessage::Cast` / `::Call` literals -/")
+    w(f"def deliverCastFields : List String := {lean_strs(w2['deliver_cast'])}")
+    w(f"def deliverCallFields : List String := {lean_strs(w2['deliver_call'])}")
+    w("/-- actor.rs `handle_message`: arms of the `catch_unwind(from_boxed)` match (log macros dropped) and the local branch -/")
+    w(f"def handleMessageSerializedArms : List String := {lean_strs(w2['hm_arms'])}")
+    w(f"def handleMessageLocalBranch : String := {lean_str(w2['hm_local'])}")
     w("")
     cc_casts, cc_sites = cluster_session_creation(repo)
     w("/-- C17: (client.rs connect fn, NodeServerMessage variant it casts, `is_server` literal) -/")
